@@ -20,5 +20,17 @@ package broadcast
 //@   opt overflow=assumed
 //@   requires pd != nil && pd.block != nil && l.broadcastProtocol != nil && l.broadcastProtocol.P2PEnv != nil
 //@   requires forall i :: 0 <= i && i < len(pd.block.Txs) && pd.block.Txs[i] == nil ==> i < len(pd.sTxHashes)
+//@   requires sarr(pd.sTxHashes) != sarr(pd.notExistTxHashes)
 //@   loop 0 invariant len(pd.notExistTxIndices) == len(pd.notExistTxHashes)
+//@   loop 0 invariant sarr(pd.sTxHashes) != sarr(pd.notExistTxHashes)
+//@   loop 0 invariant forall k :: 0 <= k && k < len(pd.notExistTxIndices) ==> pd.notExistTxHashes[k] == pd.sTxHashes[pd.notExistTxIndices[k]]
 //@   loop 0 invariant forall k :: 0 <= k && k < len(pd.notExistTxIndices) ==> 0 <= pd.notExistTxIndices[k] && pd.notExistTxIndices[k] < len(pd.block.Txs)
+// C34: the pool is asked for exactly the short hashes of the empty positions, in position order; the
+// answer for request k goes to position notExistTxIndices[k]; the block is handed to the blockchain
+// only when every requested transaction was found
+//@   assert@call QueryModule: istype(arg3, types.ReqTxHashList) && cast(arg3, types.ReqTxHashList).Hashes == pd.notExistTxHashes && cast(arg3, types.ReqTxHashList).IsShortHash
+//@   assert@call QueryModule: forall k :: 0 <= k && k < len(pd.notExistTxIndices) ==> pd.notExistTxHashes[k] == pd.sTxHashes[pd.notExistTxIndices[k]]
+//@   assert@call GetTxGroup: arg0 != nil && arg0 == cast(ret0(QueryModule), types.ReplyTxList).Txs[i] && index == pd.notExistTxIndices[i] && pd.block.Txs[index] == arg0
+//@   assert@call postBlockChain: buildSuccess && arg3 == pd.block
+//@   ensures called(postBlockChain) ==> result
+//@   ensures result && old(len(pd.sTxHashes)) != 0 ==> called(postBlockChain)
